@@ -197,6 +197,10 @@ def build_cases(tier):
     for pt in (("relative", "absolute"), ("relative", "relative")):
         k += 1
         cases.append(PerturbationCase(f"c10-{k:03d}", pt))
+    # the built-in samplers over repeated gradient evaluations of one evaluator: still x + magnitude x the own draw
+    from .c17 import PipelineCase
+    k += 1
+    cases.append(PipelineCase(f"c10-{k:03d}", methods=("uniform", "norm"), sampler_map=(0, 1, 0), N=3, evals=3))
     if tier == "thorough":
         for combo in itertools.product(btypes, repeat=2):
             add(boundary=combo, ptypes=("relative", "absolute"), bounds=("both", "both"), P=2)
